@@ -6,4 +6,5 @@ let () =
   | [| _; "seed" |] -> Seed_driver.run ()
   | [| _; "sol" |] -> Sol_driver.run ()
   | [| _; "grid" |] -> Grid_driver.run ()
+  | [| _; "nn" |] -> Nn_driver.run ()
   | _ -> prerr_endline "usage: ompl_model <heap|...>"; exit 2
